@@ -38,8 +38,6 @@ def unit_cases(ctx):
 
 
 def chunks_of_write(proto, n):
-    if proto == "tls13":
-        return [n]
     out = []
     while n > 0:
         out.append(min(n, 16384)); n -= out[-1]
@@ -78,8 +76,6 @@ def hs_cases(ctx):
                 # every write size x read size, both directions, spread over a few connections
                 combos = [(w, rd) for w in WS + [r.range(2, 49999)] for rd in RS + [r.range(2, 19999)]]
                 r.shuffle(combos)
-                if proto == "tls13":
-                    combos = [(w if w <= 18415 else r.choice([16386, 17000, 18415]), rd) for (w, rd) in combos]
                 per = 6 if not thorough else 3
                 for i in range(0, len(combos), per):
                     rounds = []
@@ -93,10 +89,11 @@ def hs_cases(ctx):
                     split = 1 if k % 2 == 1 else 0
                     cases.append(("hs %s %d %d %d %d %s" % (proto, auth, depth, seed, split, sc),
                                   "hs:%s:auth%d:depth%d:%s" % (proto, auth, depth, "short-reads" if split else "whole-records"), proto))
-    # TLS 1.3 writes beyond what conn->record holds (DESIGN section 5 #22)
-    for w in ([18416, 20000, 50000] if not thorough else [18416, 18432, 20000, 30000, 50000]):
+    # TLS 1.3 writes around and beyond what conn->record holds (DESIGN section 5 #22, repaired by c5b289c:
+    # tls13_send now fragments at 2^14 like tls_send)
+    for w in ([16385, 18415, 18416, 20000, 50000] if not thorough else [16385, 18415, 18416, 18432, 20000, 30000, 50000]):
         seed += 1
-        cases.append(("hs tls13 0 1 %d 0 wc%d,rs20000,rs20000,rs20000" % (seed, w), "xfer:tls13:write>18415", "tls13"))
+        cases.append(("hs tls13 0 1 %d 0 %s" % (seed, make_script(r, "tls13", [("c", w, 20000), ("s", w, 16384)])), "hs:tls13:large-write", "tls13"))
     return cases
 
 
@@ -134,10 +131,7 @@ def run(ctx):
         ctx.count("op:hs")
         rep = {"kind": "failing-input", "op": line, "impl": out[:2000], "variant": "asan"}
         if out.startswith("FAULT") or out.startswith("ERR"):
-            if cell.startswith("xfer:tls13"):
-                ctx.violation(cell, "tls13_send with a %s-byte buffer: %s (no clamp at 2^14; the record is written past conn->record)" % (line.split("wc")[1].split(",")[0], out[:80]), rep)
-            else:
-                ctx.violation(cell + ":harness", "session did not run: %s [%s]" % (out[:100], line[:80]), rep)
+            ctx.violation(cell + (":memory-fault" if out.startswith("FAULT") else ":harness"), "session did not run to its end: %s [%s]" % (out[:100], line[:80]), rep)
             continue
         f = fields(out)
         bad = []
@@ -191,13 +185,9 @@ def run(ctx):
         if script != "-":
             mlines.append("xfer %s %s" % (proto, script))
             back.append((line, cell, proto, f, out, "xfer"))
-            if proto == "tls13":
-                mlines.append("xfer tls13c %s" % script)
-                back.append((line, cell, proto, f, out, "xfer-clamped"))
     mouts, _ = core.run_lines(model, mlines, shards=min(16, max(1, len(mlines))))
     for (line, cell, proto, f, out, kind), mline, mo in zip(back, mlines, mouts):
-        if kind != "xfer-clamped":
-            ctx.cov["evaluations"] += 1
+        ctx.cov["evaluations"] += 1
         ctx.count("op:" + kind)
         rep = {"kind": "failing-input", "op": line, "impl": out[:3000], "model_op": mline[:3000], "expected": mo[:3000], "variant": "asan"}
         if mo.startswith("MODEL-") or (mo.startswith("ERR") and kind == "obs"):
@@ -222,34 +212,21 @@ def run(ctx):
             else:
                 ctx.cell(cell + ":keys")
                 ctx.sample({"op": line[:120], "result": mo[:130]})
-        elif kind == "xfer-clamped":
-            continue            # consulted from the "xfer" entry just before it
         else:
-            def agrees(mo_):
-                if mo_.startswith("FAULT") or "=" not in mo_:
-                    return ["model predicts a memory fault for this script"]
-                m = fields(mo_)
-                bad = []
-                if m["xfer"] != f.get("xfer"):
-                    bad.append("delivered data / lengths differ from the stream model")
-                if m["wire"] != f.get("wire"):
-                    bad.append("record boundaries on the wire differ: impl %s model %s" % (f.get("wire", "")[:80], m["wire"][:80]))
-                s0 = [int(x, 16) for x in re.split("[:/]", f["seq"])]
-                s2 = [int(x, 16) for x in re.split("[:/]", f["seq2"])]
-                d = [b - a for a, b in zip(s0, s2)]      # client.cseq client.sseq server.cseq server.sseq
-                n = [int(x) for x in re.split("[:/]", m["nrec"])]   # dir0 sseq:rseq / dir1 sseq:rseq
-                if [d[0], d[2], d[3], d[1]] != n:
-                    bad.append("sequence numbers advanced %s, model %s" % (d, n))
-                return bad
-            bad = agrees(mo)
-            if bad and proto == "tls13":
-                # does the implementation behave like tls13_send WITH the 2^14 clamp (the repair of #22)?
-                j = mlines.index(mline)
-                if j + 1 < len(mouts) and not agrees(mouts[j + 1]):
-                    ctx.cell(cell + ":xfer-clamped"); ctx.notes.append("tls13_send clamps at 2^14 (repaired): " + line[:60]); continue
-            if cell.startswith("xfer:tls13"):
-                ctx.violation(cell, "tls13_send accepted a write larger than 18415 bytes; the record does not reach the peer intact: impl %s / model %s" % (f.get("xfer", "")[:80], mo[:40]), rep)
-                continue
+            if mo.startswith("FAULT") or "=" not in mo:
+                ctx.violation(cell + ":xfer", "model predicts a memory fault / fails for this script: " + mo[:100], rep); continue
+            m = fields(mo)
+            bad = []
+            if m["xfer"] != f.get("xfer"):
+                bad.append("delivered data / lengths differ from the stream model")
+            if m["wire"] != f.get("wire"):
+                bad.append("record boundaries on the wire differ: impl %s model %s" % (f.get("wire", "")[:80], m["wire"][:80]))
+            s0 = [int(x, 16) for x in re.split("[:/]", f["seq"])]
+            s2 = [int(x, 16) for x in re.split("[:/]", f["seq2"])]
+            d = [b - a for a, b in zip(s0, s2)]      # client.cseq client.sseq server.cseq server.sseq
+            n = [int(x) for x in re.split("[:/]", m["nrec"])]   # dir0 sseq:rseq / dir1 sseq:rseq
+            if [d[0], d[2], d[3], d[1]] != n:
+                bad.append("sequence numbers advanced %s, model %s" % (d, n))
             if bad:
                 ctx.violation(cell + ":xfer", "; ".join(bad) + " [%s]" % line[:120], rep)
             else:
